@@ -299,6 +299,9 @@ func zipLeaves(a, b Val, f func(Sc, Sc) Sc) Val {
 // sel selects index idx from every leaf of a lifted array value.
 func sel(a Val, idx string) Val {
 	return mapLeaves(a, func(s Sc) Sc {
+		if strings.HasPrefix(s.T, "@fn:") {
+			return Sc{fmt.Sprintf("(%s %s)", s.T[4:], idx), innerSort(s.S)}
+		}
 		return Sc{fmt.Sprintf("(select %s %s)", s.T, idx), innerSort(s.S)}
 	})
 }
